@@ -684,6 +684,11 @@ func isSafeForReverseSuffix(re *syntax.Regexp) bool {
 		if wildcardCount == 0 {
 			return false // No wildcard pattern - not safe
 		}
+		// The match END comes from the forward DFA, which is not exact for lazy
+		// quantifiers (same restriction as the bidirectional DFA in buildReverseDFA).
+		if hasNonGreedyQuantifier(re) {
+			return false
+		}
 		// Note: wildcardCount >= 2 guard removed. The underlying issues were:
 		// 1. Reverse NFA mixed-edge bug — fixed in v0.12.9 (fillMixedState)
 		// 2. Find() rightmost semantics — fixed: non-matchStartZero uses
@@ -856,6 +861,11 @@ func isSafeForMultilineReverseSuffix(re *syntax.Regexp) bool {
 	switch re.Op {
 	case syntax.OpConcat:
 		if len(re.Sub) < 2 {
+			return false
+		}
+		// The match END comes from the forward DFA, which is not exact for lazy
+		// quantifiers (same restriction as the bidirectional DFA in buildReverseDFA).
+		if hasNonGreedyQuantifier(re) {
 			return false
 		}
 		// First element should be ^ (line start anchor)
